@@ -18,7 +18,9 @@ import tempfile
 import time
 
 VERIF = os.path.dirname(os.path.dirname(os.path.abspath(__file__)))
-sys.path.insert(0, "/repo")
+OUT = os.environ.get("SRX_OUT", VERIF)      # developer self-tests redirect evidence/replays away from /verif
+REPO = os.environ.get("SRX_REPO", "/repo")
+sys.path.insert(0, REPO)
 sys.path.insert(0, VERIF)
 
 MODULES = {
@@ -82,7 +84,7 @@ def run_workers_subset(modname, keep, tier, walls, known_keys, jobs):
     # simple: run all requested indices through a private pool
     tmpdir = tempfile.mkdtemp(prefix="srx_")
     env = dict(os.environ)
-    env["PYTHONPATH"] = "/repo:" + VERIF + (":" + env["PYTHONPATH"] if env.get("PYTHONPATH") else "")
+    env["PYTHONPATH"] = REPO + ":" + VERIF + (":" + env["PYTHONPATH"] if env.get("PYTHONPATH") else "")
     env["SRX_KNOWN_KEYS"] = ",".join(known_keys)
     env.setdefault("PYTHONHASHSEED", "0")
     pending = list(keep)
@@ -193,8 +195,8 @@ def finish(pid, tier, seed, mod, insts, keep, results, known, wall):
                               sat=st["sat"], inconclusive=st["inconclusive"], exhausted=st.get("exhausted"),
                               wall_s=r.get("wall_total_s")))
     # ---- report
-    os.makedirs(os.path.join(VERIF, "replays"), exist_ok=True)
-    os.makedirs(os.path.join(VERIF, "evidence"), exist_ok=True)
+    os.makedirs(os.path.join(OUT, "replays"), exist_ok=True)
+    os.makedirs(os.path.join(OUT, "evidence"), exist_ok=True)
     lines = []
     for k, hits in sorted(known_hits.items()):
         desc = known.get(k, "")
@@ -208,7 +210,7 @@ def finish(pid, tier, seed, mod, insts, keep, results, known, wall):
         if key in seen:
             continue
         seen.add(key)
-        path = os.path.join(VERIF, "replays", "%s-%d.json" % (pid, len(vio_files)))
+        path = os.path.join(OUT, "replays", "%s-%d.json" % (pid, len(vio_files)))
         with open(path, "w") as f:
             json.dump(dict(property=pid, module=MODULES[pid], tier=tier, instance_index=v["instance_index"], instance=v["instance"],
                            check=v["check"], witness=v["witness"], info=v.get("info"), observed=v.get("replay")), f, indent=1, default=str)
@@ -249,10 +251,10 @@ def finish(pid, tier, seed, mod, insts, keep, results, known, wall):
     )
     ev = dict(property_id=pid, tier=tier, seed=seed, level=getattr(mod, "LEVEL", "other"), coverage=cov,
               assumptions=list(getattr(mod, "ASSUMPTIONS", [])) + _shim_list(), wall_s=round(wall, 2), violations=len(vio_files))
-    tmp = os.path.join(VERIF, "evidence", pid + ".json.tmp")
+    tmp = os.path.join(OUT, "evidence", pid + ".json.tmp")
     with open(tmp, "w") as f:
         json.dump(ev, f, indent=1, default=str)
-    os.replace(tmp, os.path.join(VERIF, "evidence", pid + ".json"))
+    os.replace(tmp, os.path.join(OUT, "evidence", pid + ".json"))
     print("%s tier=%s instances=%d/%d paths=%d assertions=%d discharged=%d(+%d syntactic) sat=%d known=%d inconclusive=%d not-reproduced=%d problems=%d wall=%.1fs" % (
         pid, tier, n_ok, len(keep), agg["paths"], agg["checks"], agg["discharged"], agg["trivial"], agg["sat"], agg["known_sat"],
         cov["inconclusive"], len(not_repro), len(problems), wall))
